@@ -88,25 +88,46 @@ def parse(out):
     return verdict, nfail, ntotal, failed_desc, unwind_fail
 
 
-def kani_part(setname, tier='quick'):
+_CACHE = {}
+
+
+def kani_part(setname, tier='quick', prop=None, stop_on_failure=False):
+    key = (setname, tier, prop, stop_on_failure)
+    if key in _CACHE:
+        return _CACHE[key]
+    r = _kani_part(setname, tier, prop, stop_on_failure)
+    _CACHE[key] = r
+    return r
+
+
+def _kani_part(setname, tier='quick', prop=None, stop_on_failure=False):
     pr = PartResult('kani:' + setname)
-    hs = [h for h in SETS[setname] if tier == 'thorough' or h.tier == 'quick']
+    hs = [h for h in SETS[setname] if (tier == 'thorough' or h.tier == 'quick') and (prop is None or prop in h.props)]
     t0 = time.time()
     from concurrent.futures import ThreadPoolExecutor
     # harnesses of one crate share a target directory: the first run builds, the rest reuse; run a few in parallel
+    stop = {'flag': False}
+
     def one(h):
-        return h, run_harness(h)
+        if stop['flag']:
+            return h, ('SKIPPED', 0.0, False, '')
+        r = run_harness(h)
+        if stop_on_failure and parse(r[0])[0] == 'FAILED':
+            stop['flag'] = True      # fallback mode: one exhibited violation is enough
+        return h, r
     results = []
     if hs:
         # build once serially (first harness), then the rest in parallel
         results.append(one(hs[0]))
-        with ThreadPoolExecutor(max_workers=6) as ex:
+        with ThreadPoolExecutor(max_workers=8) as ex:
             results += list(ex.map(one, hs[1:]))
     cmds = []
     for h, (out, secs, timed_out, cmd) in results:
         cmds.append(cmd)
         verdict, nfail, ntotal, failed_desc, unwind_fail = parse(out)
         detail = []
+        if out == 'SKIPPED':
+            continue   # not run (fallback stopped after the first exhibited violation); not an obligation of this run
         if timed_out:
             st = UNDECIDED
             detail = [dict(message='kani timed out after %ds' % h.timeout)]
@@ -114,8 +135,12 @@ def kani_part(setname, tier='quick'):
             st = DISCHARGED
         elif verdict == 'FAILED' and not unwind_fail:
             st = FAILED
-            # concrete values
-            pout, _, _, _ = run_harness(h, playback=True)
+            # concrete values (Kani's concrete playback); once per part is enough to exhibit an input
+            if getattr(pr, '_playback_done', False):
+                pout = ''
+            else:
+                pr._playback_done = True
+                pout, _, _, _ = run_harness(h, playback=True)
             vals = re.findall(r'concrete_vals.*|// [-0-9]+.*|vec!\[[^\]]*\]', pout)
             detail = [dict(message='; '.join(failed_desc)[:600], rendered=out[-3000:], concrete_playback=pout[pout.find('Concrete playback'):][:4000] if 'Concrete playback' in pout else '\n'.join(vals)[:4000])]
         elif verdict == 'FAILED' and unwind_fail:
@@ -170,18 +195,19 @@ register('blockrng', [
       note='BlockRng64::fill_bytes(n): first n LE bytes of the next ceil(n/8) words; pending half discarded'),
 ])
 register('hc128_incrate', [
+    H('hc128_rng_eq_all_index_pairs', 'C10', crate='rand_hc', tier='thorough', timeout=1800, note='Hc128Rng::eq on a fixed core: == iff the read positions are equal, for all pairs of positions 0..=16'),
     H('hc128_from_seed_le_words', 'C02 C09', crate='rand_hc', note='from_seed: LE words of the seed reach init (recording stub for init)'),
-    H('hc128_seed_from_u64_is_pcg32', 'C09', crate='rand_hc', note='seed_from_u64 == from_seed(PCG32 expansion)'),
+    H('hc128_seed_from_u64_is_pcg32', 'C09', crate='rand_hc', tier='thorough', timeout=3600, note='seed_from_u64 == from_seed(PCG32 expansion); 64-bit multiplication abstracted to an uninterpreted function'),
     H('hc128_from_rng_one_seed', 'C09', crate='rand_hc', note='from_rng: exactly one fill_bytes(32), LE words'),
     H('hc128_try_from_rng', 'C09', crate='rand_hc', note='try_from_rng: same on success; the source error and no generator on failure'),
-    H('hc128_core_debug_is_constant', 'C17', crate='rand_hc', note='{:?} and {:#?} of an arbitrary Hc128Core == "Hc128Core {}"'),
+    H('hc128_core_debug_is_constant', 'C17', crate='rand_hc', tier='thorough', timeout=1800, note='{:?} and {:#?} of an arbitrary Hc128Core == "Hc128Core {}"'),
 ], module='hc128::rngs_verif_harness')
 for _p, _c in (('isaac', 'IsaacCore'), ('isaac64', 'Isaac64Core')):
     register(_p + '_incrate', [
         H(_p + '_from_seed_layout', 'C03 C09', crate='rand_isaac', note=_c + '::from_seed: LE seed words in the first slots, zeros elsewhere, two passes (recording init stub)'),
-        H(_p + '_from_rng_layout', 'C09', crate='rand_isaac', note=_c + '::from_rng (unsafe raw-parts): one fill_bytes of the whole slot array, LE words, two passes', timeout=2400),
-        H(_p + '_try_from_rng', 'C09', crate='rand_isaac', note=_c + '::try_from_rng: same on success; the source error and no generator on failure', timeout=2400),
-        H(_p + '_core_debug_is_constant', 'C17', crate='rand_isaac', note='{:?} / {:#?} of an arbitrary core == "%s {}"' % _c),
+        H(_p + '_from_rng_layout', 'C09', crate='rand_isaac', tier='thorough', note=_c + '::from_rng (unsafe raw-parts): one fill_bytes of the whole slot array, LE words, two passes', timeout=2400),
+        H(_p + '_try_from_rng', 'C09', crate='rand_isaac', tier='thorough', note=_c + '::try_from_rng: same on success; the source error and no generator on failure', timeout=2400),
+        H(_p + '_core_debug_is_constant', 'C17', crate='rand_isaac', tier='thorough', timeout=1800, note='{:?} / {:#?} of an arbitrary core == "%s {}"' % _c),
     ], module=_p + '::rngs_verif_harness')
 register('seeding', [
     H('xorshift_seed_from_u64_is_pcg32', 'C09', note='XorShiftRng::seed_from_u64(x) == from_seed(PCG32 expansion of x) for every x'),
@@ -194,3 +220,19 @@ register('serde_rt', [H('serde_' + n, 'C11', tier=('quick' if n in ('splitmix64'
 register('debug', [
     H('xorshift_debug_is_constant', 'C17', note='{:?} / {:#?} of XorShiftRng::from_seed(any) == "XorShiftRng {}"'),
 ])
+register('jitter_incrate', [
+    H('jitter_debug_is_constant', 'C17', crate='rand_jitter', note='{:?} / {:#?} of a JitterRng in an arbitrary state == "JitterRng {}"'),
+    H('jitter_random_loop_cnt_reads_once', 'C12', crate='rand_jitter', note='random_loop_cnt reads the timer exactly once'),
+], module='rngs_verif_harness')
+
+_API32 = ['xoroshiro64star', 'xoroshiro64starstar', 'xoshiro128plus', 'xoshiro128plusplus', 'xoshiro128starstar']
+_API64 = ['xoroshiro128plus', 'xoroshiro128plusplus', 'xoroshiro128starstar', 'xoshiro256plus', 'xoshiro256plusplus', 'xoshiro256starstar',
+          'xoshiro512plus', 'xoshiro512plusplus', 'xoshiro512starstar']
+register('api', [H('api_seed_' + n, 'C01 C08', tier='thorough', timeout=1800,
+                   note='%s::from_seed on the public API: non-zero seed verbatim (state observed through serde), zero seed == seed_from_u64(0), never the zero state' % n)
+                 for n in _API32 + _API64] +
+                [H('api_step_' + n, 'C01 C05', tier='thorough', timeout=1800,
+                   note='%s: native next == reference output, state after == reference successor, other-width call == documented projection (public API, arbitrary non-zero state)' % n)
+                 for n in _API32 + _API64] +
+                [H('api_seed_xorshift', 'C04 C08', tier='thorough', note='XorShiftRng::from_seed: LE words / 0x0BAD5EED (public API)'),
+                 H('api_step_xorshift', 'C04 C05', tier='thorough', note='XorShiftRng::next_u32 == xor128 step (public API, arbitrary non-zero state)')])
